@@ -143,6 +143,25 @@ def handleAreas (j : Json) : R Json := do
 where
   tieKeyOf (p : CC.Proto) : String × Int × Int := (p.product, p.core.start, p.core.end)
 
+def handleOutside (j : Json) : R Json := do
+  let subs ← listOf (listOf asInt) (← fld j "subs")
+  let annotated ← listOf asInt (← fld j "annotated")
+  let withDomains ← listOf asInt (← fld j "with_domains")
+  let has := fun c => withDomains.contains c
+  let m := outsideResults has annotated subs
+  return jObj [("model", jInts m), ("model_rev", jInts (outsideResults has annotated.reverse subs)),
+               ("set_walk_differs", b (outsideResultsSetE id has annotated subs != outsideResultsSetE List.reverse has annotated subs)),
+               ("scope", b true), ("nontrivial", b (m.length > 1))]
+
+def handleByCds (j : Json) : R Json := do
+  let genes ← listOf (fun e => do return (← asInt (← idx e 0), ← asInt (← idx e 1))) (← fld j "genes")
+  let tags ← listOf asInt (← fld j "tags")
+  let lookup : Int → Option (Int × Int) := fun n => if n < 0 then none else genes[n.toNat]?
+  let m := subregionsByCds (← boolF j "circ") (← intF j "len") (← intF j "pad") lookup tags
+  return jObj [("model", jArr (m.map fun e => jInts [e.1, e.2.1, e.2.2])),
+               ("labels", jInts (tags.filter fun n => (lookup n).isSome)),
+               ("scope", b true), ("nontrivial", b (m.length > 1))]
+
 def handle (j : Json) : R Json := do
   match ← strF j "k" with
   | "names" => handleNames j
@@ -152,6 +171,8 @@ def handle (j : Json) : R Json := do
   | "best" => handleBest j
   | "write" => handleWrite j
   | "areas" => handleAreas j
+  | "outside" => handleOutside j
+  | "bycds" => handleByCds j
   | k => throw s!"C17: unknown kind {k}"
 
 end ASV.Drv.C17
